@@ -224,7 +224,7 @@ eng_mix(void)
                                         if (l->it->cipher != IMB_CIPHER_NULL && n && memcmp(a, b, n))
                                                 bad = 2;
                                         /* PON with PLI <= 4: the CRC half of the tag is not specified (stale register on SSE/AVX) */
-                                        uint32_t tn = (l->it->cipher == IMB_CIPHER_PON_AES_CNTR && !l->it->pon_crc_defined) ? 4 : l->it->tag_len;
+                                        uint32_t tn = l->it->tag_unspec ? 0 : (l->it->cipher == IMB_CIPHER_PON_AES_CNTR && !l->it->pon_crc_defined) ? 4 : l->it->tag_len;
                                         if (l->it->tag_len && memcmp(l->it->tag, twin->tag, tn))
                                                 bad = 3;
                                 }
